@@ -9,7 +9,9 @@ import (
 	"path/filepath"
 	"regexp"
 	"runtime/debug"
+	"runtime/pprof"
 	"sort"
+	"strconv"
 	"strings"
 	"time"
 
@@ -57,9 +59,19 @@ func main() {
 	tier := flag.Int("tier", 0, "value returned by vf_Tier (0 quick, 1 thorough)")
 	liaSolver := flag.String("lia-solver", "cvc5", "solver for the integer view (z3|cvc5)")
 	crossSolver := flag.String("cross-solver", "cvc5", "second solver (one-shot)")
+	cpuprof := flag.String("cpuprofile", "", "write cpu profile")
 	flag.Parse()
+	if *cpuprof != "" {
+		f, _ := os.Create(*cpuprof)
+		pprof.StartCPUProfile(f)
+		defer pprof.StopCPUProfile()
+	}
 
-	debug.SetGCPercent(800)
+	gcp := 200
+	if v, err := strconv.Atoi(os.Getenv("SYMGO_GOGC")); err == nil {
+		gcp = v
+	}
+	debug.SetGCPercent(gcp)
 	t0 := time.Now()
 	overlay := map[string][]byte{}
 	absPkg := filepath.Join(*repo, *pkgDir)
